@@ -2,7 +2,10 @@ package main
 
 // Tree-level checks built on the history harness: C01 C02 C03 C04 C05 C06 C11 C14 C15.
 
-import "fmt"
+import (
+	"fmt"
+	"strings"
+)
 
 var numericQuick = []int{kindU8, kindI64, kindF32}
 var numericAll = []int{kindU8, kindU16, kindU32, kindU64, kindUint, kindI8, kindI16, kindI32, kindI64, kindInt, kindF32, kindF64}
@@ -130,6 +133,22 @@ func withMask(bs []histB, mask int, extra func(b *histB) []int) []*Scenario {
 	return out
 }
 
+// hugeScenarios: keys whose stored length crosses the width of an 8- or 16-bit field (harness/huge.go).
+func hugeScenarios(c *CheckRun) []*Scenario {
+	var out []*Scenario
+	ns := []int{254, 65534}
+	if c.Tier != "quick" {
+		ns = []int{253, 254, 255, 256, 65533, 65534, 65535, 65536}
+	}
+	for _, n := range ns {
+		out = append(out, &Scenario{Harness: "hHuge", Params: []int{n, 0}, Label: fmt.Sprintf("keys of %d bytes (length-field boundary)/alpha[]byte", n+1), MaxSteps: 200_000_000})
+		if c.Tier != "quick" || n == 65534 {
+			out = append(out, &Scenario{Harness: "hHuge", Params: []int{n, 1}, Label: fmt.Sprintf("keys of %d bytes (length-field boundary)/alpha string", n+1), MaxSteps: 200_000_000})
+		}
+	}
+	return out
+}
+
 // k0Scenarios: the known class K0 (a terminated key that is a proper prefix of another terminated key).
 func k0Scenarios(mask int) []*Scenario {
 	var out []*Scenario
@@ -150,11 +169,13 @@ var commonBounds = []string{
 	"F-long: two keys stem(p)+1 byte, one more symbolic op and probe over {same stem +0/1/2 bytes, stem with one symbolic byte at position 0, p/2, p-1, stem shortened by 1 or 2}; p in {maxPrefixLen, +1} quick; {-1,0,+1,+2, 2*maxPrefixLen} thorough",
 	"F-num: every Insert/Delete pattern of 3 (quick: uint8,int64,float32; thorough: all 12 types, and 4 ops for six of them) symbolic values",
 	"F-fan (where used): one node with m concrete 1-byte siblings for m at every grow/shrink threshold (4,16,48 / 3,12,37 as read from the working tree's constants), then 1 (quick) or 2 (thorough) symbolic Insert/Delete and a symbolic probe; sibling bytes = {00,01,7f,80,fe,ff} plus seed-chosen fill",
-	"per-path unwinding assertion: 20M SSA instructions; call depth 200; concretisation fan-out 300",
+	"F-fan additions: a node16 that was full and is shrunk to 2/6 children by deleting its largest bytes (stale lanes hold the removed maximum); all 256 byte values under one node (update-free base); F-fan-stem bases whose 5/17/49 siblings and the stem key are all deleted again; F-fan-kind (uint8, int8, uint16, float32; thorough int64; collation and compound with concrete encodings) incl. a node48 whose first-inserted children are deleted and, for uint16/int64/float32/collation/compound, the same fans below the root",
+	"length-field boundaries (C01, C06, C15): two byte-string keys of 255 and 65535 bytes (thorough 254..257, 65534..65537), concrete stem, symbolic last byte: insert, overwrite, second insert, All, Minimum, failed and real Delete",
+	"per-path unwinding assertion: 20M SSA instructions (200M for the 64 KiB keys); call depth 200; concretisation fan-out 300",
 }
 
 var commonOutside = []string{
-	"histories with more symbolic operations than the templates, keys longer than stem+2 / L bytes, fan-out base byte sets other than the enumerated ones",
+	"histories with more symbolic operations than the templates, keys longer than stem+2 / L bytes (except the two length-field boundary lengths), keys of 2^32 bytes or more, fan-out base byte sets other than the enumerated ones",
 	"collation and compound trees (covered by C08 / C09)",
 	"byte-string key sets in known class K0 (one terminated key a proper prefix of another: needs an embedded 0x00) are excluded by assumption and evaluated separately",
 	"node16_arm64.s (cannot be executed or replayed on this machine)",
@@ -177,6 +198,7 @@ func init() {
 			out := withMask(histFamilies(c, true), ckMap, nil)
 			out = append(out, fanKinds(c, ckMap, c.Tier != "quick")...)
 			out = append(out, k0Scenarios(ckMap|ckSize)...)
+			out = append(out, hugeScenarios(c)...)
 			return out
 		},
 		Bounds: commonBounds, Outside: commonOutside, Assumptions: commonAssume,
@@ -197,6 +219,7 @@ func init() {
 			out := withMask(histFamilies(c, true), ckSize|ckIter, nil)
 			out = append(out, fanKindsOpt(c, ckSize|ckIter, c.Tier != "quick", true)...)
 			out = append(out, k0Scenarios(ckSize|ckIter)...)
+			out = append(out, hugeScenarios(c)...)
 			return out
 		},
 		Bounds: commonBounds, Outside: commonOutside, Assumptions: commonAssume,
@@ -211,7 +234,13 @@ func init() {
 	register(&CheckSpec{
 		ID: "C11", Level: "model_checking", Summaries: true, Rule: stateRule,
 		Scenarios: func(c *CheckRun) []*Scenario {
-			return append(withMask(histFamilies(c, true), ckShape, nil), fanKinds(c, ckShape, c.Tier != "quick")...)
+			out := append(withMask(histFamilies(c, true), ckShape, nil), fanKinds(c, ckShape, c.Tier != "quick")...)
+			for _, s := range out {
+				if strings.Contains(s.Label, "F-fan m=256 ") {
+					s.Known = "K2" // only the counter assertion is attributed to the class (known_findings.json: assert)
+				}
+			}
+			return out
 		},
 		Bounds: append([]string{"wellFormed (harness walker over the real node structures) asserted after every single operation"}, commonBounds...), Outside: commonOutside, Assumptions: commonAssume,
 	})
@@ -268,6 +297,9 @@ func rangeScenarios(c *CheckRun) []*Scenario {
 		if (b.kind == kindF32 || b.kind == kindF64) && len(b.ops) > 1 && c.Tier == "quick" {
 			continue // two symbolic float keys plus two symbolic float bounds time the solver out; thorough tier only
 		}
+		if (b.kind == kindInt || b.kind == kindU64) && len(b.ops) > 1 && c.Tier == "quick" {
+			continue // 64-bit keys with two symbolic bounds cost ~700 solver-seconds per type: quick keeps int64 and uint
+		}
 		base = append(base, b)
 	}
 	base = append(base, histB{kind: kindF32, ops: [][2]int{{opInsert, 0}}, label: "F-num n=1"}, histB{kind: kindF64, ops: [][2]int{{opInsert, 0}}, label: "F-num n=1"})
@@ -282,6 +314,9 @@ func rangeScenarios(c *CheckRun) []*Scenario {
 				return []int{aSpec(b.stem, 1), cKeyStem(b.stem, 0xff) | 1<<30}
 			}
 			return []int{cKeyStemOnly(b.stem) | 1<<30, aSpec(b.stem, 1)}
+		}
+		if strings.Contains(b.label, "m=256 ") {
+			return []int{cKey1(0x01) | 1<<30, cKey1(0xfe) | 1<<30} // 256 re-executions of 256 inserts otherwise
 		}
 		if b.big {
 			// one symbolic bound, the other concrete (0x00 / 0xff)
@@ -351,6 +386,15 @@ func alphaOnly(bs []histB) []histB {
 func prefixScenarios(c *CheckRun) []*Scenario {
 	base := alphaOnly(cheapBig(histFamiliesW(c, true, true)))
 	out := withMask(base, ckPrefix, func(b *histB) []int { return []int{probeSpec(b)} })
+	// the update-free fan bases also with the empty prefix: the whole fan is yielded, so its order is judged
+	var whole []histB
+	for _, b := range base {
+		if b.noSym {
+			b.label += " (empty prefix)"
+			whole = append(whole, b)
+		}
+	}
+	out = append(out, withMask(whole, ckPrefix, func(b *histB) []int { return []int{aSpec(0, 0)} })...)
 	mp := c.Eng.constInt("maxPrefixLen", 10)
 	// targeted: two sibling groups under a long stem whose continuations look alike (DESIGN §7 row 5)
 	for _, p := range []int{mp, mp + 1} {
@@ -489,5 +533,7 @@ func pureScenarios(c *CheckRun) []*Scenario {
 		s.MayBeVacuous = true
 		out = append(out, s)
 	}
+	// an Insert of a present key of 255 / 65535 bytes changes nothing but the value (length fields must not truncate)
+	out = append(out, hugeScenarios(c)...)
 	return out
 }
